@@ -455,6 +455,8 @@ func checkC18(c *Ctx) {
 	c.Expect("R7", 2)
 	c.Rule("R10", "a host that is announced again stays in the node list (shared with C15.R7): the previous object of the address is purged from the healthy tiers before the new one is inserted, never after")
 	c.withAlias(map[string]string{"R7": "R10", "R1": "", "R2": "", "R3": "", "R4": "", "R5": "", "R6": "", "R8": "", "R9": "", "R10": "", "R11": "", "R12": ""}, func() { checkC15(c) })
+	c.Rule("R11", "a removed host leaves the node list (shared with C08.R10/C06.R12): every add/remove/replace handler hands the event's hosts to the host set on every path, whether or not a connection to them exists")
+	checkEndpointEventsReachSet(c, "R11")
 	c.Rule("R9", "the node that answers is the node asked: a request addressed to a host is sent to the connection of that address or failed")
 	checkRequestGoesToTheAddressAsked(c, "R9")
 	c.Rule("R8", "no object that is given back to a sync.Pool is still captured by a registered completion hook")
